@@ -106,6 +106,8 @@ class Configuration(object):
         integ = self._load_crypto_algs('integ', conf_dict.get('integ', ['sha256']), _integ_name_to_transform)
         prf = self._load_crypto_algs('prf', conf_dict.get('prf', ['sha256']), _prf_name_to_transform)
         dh = self._load_crypto_algs('dh', conf_dict.get('dh', ['14']), _dh_name_to_transform)
+        if not (encr and integ and prf and dh):
+            raise ConfigurationError(f'Connection "{name}" needs at least one algorithm of each kind (encr, integ, prf, dh)')
         ikeconf = IkeConfiguration(
             name=name,
             my_addr=self._load_ip_address(conf_dict['my_addr']),
